@@ -94,7 +94,7 @@ func bodyTag(m *msggen.Msg) string {
 	}
 	t := m.Spec.Framing
 	if m.Spec.Enc != "none" {
-		t += ",enc=" + m.Spec.Enc
+		t += ",content-coded"
 	}
 	return t
 }
